@@ -150,6 +150,29 @@ pub fn run(tier: Tier) -> i32 {
     let l = super::common::history_pairs("zinc-codec", &pool, &zinc_observation, &|v: &V| to_json(v));
     run.absorb(l);
 
+    // two values in one document: [w, v, {a:w b:v}] for all ordered pairs of the pool (state inside
+    // one decode or encode call: a "last unit / last zone / last string" memo)
+    {
+        let pool = history_pool();
+        let l = par_for(pool.len(), |i, local| {
+            for v in pool.iter() {
+                let doc = V::List(vec![pool[i].clone(), v.clone(), V::dict(&[("a", pool[i].clone()), ("b", v.clone())])]);
+                local.eval();
+                if let Err((stage, d)) = zinc_roundtrip(&doc) {
+                    // minimise to the pair
+                    let pair = V::List(vec![pool[i].clone(), v.clone()]);
+                    let (stage, d, shown) = match zinc_roundtrip(&pair) {
+                        Err((s2, d2)) => (s2, d2, pair),
+                        Ok(()) => (stage, d, doc),
+                    };
+                    local.fail(&format!("{stage}:two-values-in-one-document:{}", crate::model::shrink::shape_sig(&shown)), json!({"value": to_json(&shown)}), d);
+                }
+            }
+            local.count("pair-documents");
+        });
+        run.absorb(l);
+    }
+
     let shards = u::container_shards(tier);
     let mut ncont = 0u64;
     let l = par_for(shards.len(), |i, local| {
